@@ -5,60 +5,28 @@ import (
 	"os"
 	"time"
 
-	"github.com/daeuniverse/dae/verifx/vkern"
 	"github.com/daeuniverse/dae/verifx/vroute"
 )
 
-// development aid (C02_BENCH=1): per-operation cost of engine K in wall time; not part of the check.
+// development aid (C02_BENCH=1): cost of one program in wall time; not part of the check.
 func (c *checker) bench() {
 	k := <-c.pool
-	base := vroute.Tier1().At(3000)
-	cp, err := c.compile(base, variantAt(7))
-	if err != nil {
-		broken("%v", err)
-	}
-	t0 := time.Now()
-	for i := 0; i < 2000; i++ {
-		k.Reset()
-	}
-	fmt.Printf("reset: %.1f us\n", float64(time.Since(t0).Microseconds())/2000)
-	t0 = time.Now()
-	for i := 0; i < 2000; i++ {
-		c.load(k, cp)
-	}
-	fmt.Printf("load (%s; %d lpm): %.1f us\n", cp.prog.OneLine(), cp.v.LpmCount(), float64(time.Since(t0).Microseconds())/2000)
-	pk := packetsOf(cp.prog, vroute.PacketOpts{MappedForms: true})
-	var args []vkern.RouteArg
-	for len(args) < 4000 {
-		for i := range pk {
-			args = append(args, c.routeArg(&pk[i], true))
+	for _, idx := range []int{3000, 9000, 20000} {
+		base := vroute.Tier1().At(idx)
+		t0 := time.Now()
+		var cp *compiled
+		for i := 0; i < 200; i++ {
+			cp, _ = c.compile(base, variantAt(i%60))
 		}
-	}
-	t0 = time.Now()
-	for i := 0; i < 50; i++ {
-		k.Route(args)
-	}
-	fmt.Printf("route: %.2f us/call (batch %d)\n", float64(time.Since(t0).Microseconds())/50/float64(len(args)), len(args))
-	t0 = time.Now()
-	for i := 0; i < 20000; i++ {
-		k.Route(args[:10])
-	}
-	fmt.Printf("route batch of 10: %.2f us/batch\n", float64(time.Since(t0).Microseconds())/20000)
-	t0 = time.Now()
-	n := 0
-	for i := 0; i < 200; i++ {
-		for j := range pk {
-			p := &pk[j]
-			cp.v.Route(p.Src, p.Dst, p.Domain, l4Of(p.L4), pname16(p.Pname), p.Mac, p.Dscp)
-			cp.ref.Decide(p)
-			n++
+		tc := float64(time.Since(t0).Microseconds()) / 200
+		pk := packetsOf(cp.prog, vroute.PacketOpts{MappedForms: true}, true)
+		e0 := c.evals.Load()
+		t0 = time.Now()
+		for i := 0; i < 200; i++ {
+			c.run(k, cp, pk, "", false)
 		}
+		tr := float64(time.Since(t0).Microseconds()) / 200
+		fmt.Printf("%s: compile %.0f us, run %.0f us for %d comparisons\n", cp.prog.OneLine(), tc, tr, (c.evals.Load()-e0)/200)
 	}
-	fmt.Printf("go route+ref: %.2f us/pkt\n", float64(time.Since(t0).Microseconds())/float64(n))
-	t0 = time.Now()
-	for i := 0; i < 300; i++ {
-		c.compile(base, variantAt(i%60))
-	}
-	fmt.Printf("compile: %.1f us\n", float64(time.Since(t0).Microseconds())/300)
 	os.Exit(0)
 }
